@@ -168,6 +168,10 @@ class Recorder:
         return d
 
 
+SHRINK_BUDGET_S = {"quick": 20.0, "thorough": 120.0}
+ROUNDS = {"quick": 3, "thorough": 6}
+
+
 class Failure:
     def __init__(self, sub, case, sig, msg):
         self.sub = sub
@@ -237,13 +241,13 @@ class Ctx:
         os.makedirs(self.build, exist_ok=True)
 
 
-def _hyp_once(sub, n_examples, seed, excluded):
+def _hyp_once(sub, n_examples, seed, excluded, tier="quick"):
     """One Hypothesis campaign.  Returns (rec, failure-or-None)."""
     import hypothesis
     from hypothesis import given, settings, HealthCheck, Phase
 
     rec = Recorder(sub.name)
-    state = {"last": None}
+    state = {"last": None, "t_fail": None, "gave_up": False}
     strat = sub.strategy() if callable(sub.strategy) else sub.strategy
 
     phases = [Phase.explicit, Phase.generate, Phase.target]
@@ -257,19 +261,27 @@ def _hyp_once(sub, n_examples, seed, excluded):
               print_blob=False)
     @given(strat)
     def run(case):
+        # shrinking budget: Hypothesis has no time limit for its shrink phase (only a hard 5 minute cap); once the
+        # budget is spent every further candidate "passes", which ends the shrink with the smallest failure so far
+        if state["t_fail"] is not None and time.time() - state["t_fail"] > SHRINK_BUDGET_S[tier]:
+            state["gave_up"] = True
+            return
         try:
             res = guarded(sub.oracle, case)
         except Violation as v:
             if v.sig in excluded:
                 rec.excluded[v.sig] += 1
                 return
+            if state["t_fail"] is None:
+                state["t_fail"] = time.time()
             state["last"] = (case, v)
             raise
         if res is None:
             res = ((), True)
         classes, nontrivial = res[0], res[1]
         sample = res[2] if len(res) > 2 else None
-        rec.note(case, classes, nontrivial, sample)
+        if state["t_fail"] is None:
+            rec.note(case, classes, nontrivial, sample)
 
     try:
         run()
@@ -279,20 +291,23 @@ def _hyp_once(sub, n_examples, seed, excluded):
     except HarnessError:
         raise
     except BaseException as e:  # hypothesis wrapper errors (Flaky, ...)
-        if state["last"] is not None and type(e).__name__ in ("Flaky", "FlakyFailure", "FlakyReplay"):
+        if state["last"] is not None and state["gave_up"] and "Flaky" in type(e).__name__:
+            case, v = state["last"]
+            return rec, Failure(sub.name, case, v.sig, v.msg + " [shrink budget exhausted: case not minimal]")
+        if state["last"] is not None and "Flaky" in type(e).__name__:
             raise HarnessError("flaky oracle in %s: %r" % (sub.name, e))
         raise
     return rec, None
 
 
 def _shard_worker(args):
-    modname, subname, n, seed, excluded = args
+    modname, subname, n, seed, excluded, tier = args
     import importlib
     sys.setrecursionlimit(10000)
     mod = importlib.import_module(modname)
     sub = [s for s in mod.SUBS if s.name == subname][0]
     try:
-        rec, fail = _hyp_once(sub, n, seed, set(excluded))
+        rec, fail = _hyp_once(sub, n, seed, set(excluded), tier)
         return ("ok", rec, fail)
     except HarnessError as e:
         return ("harness", str(e), None)
@@ -316,14 +331,14 @@ def run_sub(ctx, mod, sub, findings):
         return total, []
     shards = sub.shards[ctx.tier]
     excluded = set()
-    for round_no in range(6):
+    for round_no in range(ROUNDS[ctx.tier]):
         if shards <= 1:
-            rec, fail = _hyp_once(sub, n, ctx.seed, excluded)
+            rec, fail = _hyp_once(sub, n, ctx.seed, excluded, ctx.tier)
             results = [(rec, fail)]
         else:
             import multiprocessing as mp
             per = max(1, n // shards)
-            jobs = [(mod.__name__, sub.name, per, ctx.seed * 1000 + i, sorted(excluded))
+            jobs = [(mod.__name__, sub.name, per, ctx.seed * 1000 + i, sorted(excluded), ctx.tier)
                     for i in range(shards)]
             with mp.get_context("fork").Pool(min(shards, os.cpu_count() or 1)) as pool:
                 out = pool.map(_shard_worker, jobs)
